@@ -4,6 +4,11 @@
 
 package bag
 
+// C07, package-wide: a function that evaluates Lisp forms itself forwards the
+// return-from / go marker an evaluation hands back: nothing more is evaluated
+// and the marker is the function's result.
+//@ every-function bag forward-exits
+
 // C18: bag-remove stores what the path removal returns (removing an element
 // of a root array yields a new array).
 //@ func bag.removeBag
